@@ -43,6 +43,15 @@ CHECKS = {
  "C08": dict(cat="model_checking", tech="TLA+ RFC 4515 recogniser and RFC 4511 filter encoder (Filter4515.tla): TLC classifies every string of bounded alphabets/lengths and renders ASTs with every escaping choice; parse_filter must agree on verdict and bytes; TraceFilter.tla for random/mutated strings",
       text="All strings over six filter-relevant alphabets up to length 5-7 (3.7 M in quick, 69 M in thorough) are classified by the spec as accept(bytes)/reject/either and compared with parse_filter (verdict, BER bytes, no panic); AST-driven vectors check Parse(Render(a)) = a on the spec and the bytes on the implementation; random and mutated strings are validated in the other direction.",
       note="Trusts TLC, the RFC 4515/4511 transcription (round-trip laws on the spec, independent DecodeFilter) and the harness projection. Single-number attribute types, raw ill-formed UTF-8 and upper-case :DN: may be accepted or rejected.", ref="6/C08"),
+ "C06": dict(cat="model_checking", tech="TLA+ stream-decoder state machine (Framing.tla: Frame decided by the outer header and length only) - TLC enumerates message lists x ALL chunkings, every transition replayed through the real frame decoder; end-to-end delivery traces validated by TraceFraming.tla",
+      text="For message lists of up to 3 messages from a pool (7-52 octets, controls, long-form lengths) TLC explores every chunking (the reachable space is quadratic in the stream length) and checks prefix/no-early/no-late/exact-suffix invariants; all 146 957 transitions are replayed through ldap3's decoder; end-to-end streams from 7 octets to 655 KB (1 MiB in thorough) are delivered byte-wise, whole, per message, split inside every header and randomly, and the sequence of deliveries after each chunk is validated.",
+      note="Trusts TLC, Ber.tla, the mock transport, tokio-util's Framed read loop. The harness supplies prefix sums that the spec verifies (recursing over 10^4 run-length entries is quadratic in TLC).", ref="6/C06"),
+ "C11": dict(cat="fault_enumeration", tech="TLA+ totality verdict for the frame decoder (Framing.tla: Msg / Bad / NeedMore / Either / Any) + MCHostile single-field mutation enumeration; vectors replayed through the real decoder and a live driver; stack lane in child processes; TraceHostile.tla for random strings",
+      text="Every single-field mutation of six valid messages (each length -1/+1/+100/0/huge, each element removed, each tag's class/number/constructed bit changed, primitives emptied, truncation at every byte, message IDs out of range, unknown protocolOp, malformed controls) and all byte strings of length <= 2 (<= 3 in thorough: 16.8 M) get a verdict from the spec; the decoder must agree, never panic and never wait once the outer length is satisfied; 500 driver-level scenarios with two pending operations and an active search require Err from drive(), errors for every caller and nothing delivered afterwards; nesting depths up to 2^19 run in child processes whose exit status is the observation.",
+      note="Trusts TLC, Ber.tla, process isolation for the stack lane (decode + drop on a 2 MiB thread, not a whole live driver). Memory exhaustion through huge announced lengths is not part of the statement. Panics of a caller task on a malformed protocolOp inside a well-formed envelope were fixed too but are reported as NOTEs only (the statement is about the driver).", ref="6/C11"),
+ "C14": dict(cat="model_checking", tech="TLA+ sequential model of one handle given a script (LdapSeqSync.tla); TLC enumerates scripts over the whole LdapConn/EntryStream surface; each script runs through Ldap/SearchStream and LdapConn/EntryStream over real socket pairs against the same scripted server; TraceSync.tla requires equal wire bytes and return projections",
+      text="2 841 TLC scripts of length <= 3 (every method x every modifier combination x server behaviour success / error code / entries / silence / disconnect) plus random longer scripts are executed twice; request bytes received by the server and return projections (value, error class, stream items, last_id, is_closed) must be identical step by step and conform to the model; a deviation both lanes share is a NOTE (not C14).",
+      note="Trusts TLC, AF_UNIX sockets, real time only for the silence cases (outcome class compared, a difference must show in three consecutive runs). is_closed() after the peer went away while the blocking API is idle legitimately differs (the sync driver only runs inside calls); only the outcome class is compared there.", ref="6/C14"),
  "C07": dict(cat="model_checking", tech="TLA+ reference model of X.690 (Ber.tla): TLC checks round-trip/minimality laws, prints every state as a vector replayed into lber; lber-produced pairs validated by a trace spec",
       text="TLC exhausts a bounded space of tag trees, boundary lengths and 8-octet integer patterns: the X.690 laws are invariants of the spec, every explored state is replayed into lber (encode, parse with trailing bytes, every alternative definite length form), and random lber input/output pairs are recomputed by TLC. Exhaustive within the pools, sampled beyond.",
       note="Trusts TLC, the Json module, my transcription of X.690 (checked by its own laws) and the JSON<->StructureTag projection of the harness.", ref="6/C07"),
